@@ -3,13 +3,37 @@ package openapi3
 import (
 	"fmt"
 	"regexp"
+	"strings"
 )
 
-var patRewriteCodepoints = regexp.MustCompile(`(?P<replaced_with_slash_x>\\u)(?P<code>[0-9A-F]{4})`)
-
 // See https://pkg.go.dev/regexp/syntax
+//
+// intoGoRegexp rewrites the ECMA 262 escape \uXXXX (four hexadecimal digits of
+// either case) as \x{XXXX}. Escapes are read as a whole, so that the "u" after
+// an escaped backslash is left alone.
 func intoGoRegexp(re string) string {
-	return patRewriteCodepoints.ReplaceAllString(re, `\x{${code}}`)
+	if !strings.Contains(re, `\u`) {
+		return re
+	}
+	isHex := func(c byte) bool {
+		return (c >= '0' && c <= '9') || (c >= 'A' && c <= 'F') || (c >= 'a' && c <= 'f')
+	}
+	var b strings.Builder
+	for i := 0; i < len(re); i++ {
+		if re[i] != '\\' || i+1 == len(re) {
+			b.WriteByte(re[i])
+			continue
+		}
+		if re[i+1] == 'u' && i+6 <= len(re) && isHex(re[i+2]) && isHex(re[i+3]) && isHex(re[i+4]) && isHex(re[i+5]) {
+			b.WriteString(`\x{` + re[i+2:i+6] + `}`)
+			i += 5
+			continue
+		}
+		b.WriteByte(re[i])
+		b.WriteByte(re[i+1])
+		i++
+	}
+	return b.String()
 }
 
 // NOTE: racey WRT [writes to schema.Pattern] vs [reads schema.Pattern then writes to compiledPatterns]
